@@ -346,6 +346,22 @@ def gen_desc(rng, scratch):
             inc = ["-I", "c14_onlyinc"] if pname in have else []
             desc["platforms"][pname].append({"file": "c14_cfg_user.c", "directory": ".",
                                              "arguments": ["gcc"] + inc + ["-c", "c14_cfg_user.c"]})
+    # the same header name in two include directories (override directory before generic one): which one is found is
+    # decided by the order of the -I options on the command line, never by a set / hash order
+    if rng.random() < 0.7:
+        desc["texts"]["c14_inc_tuned/c14_arch.h"] = ["#define C14_TUNED 1", "int tuned_decl;"]
+        desc["texts"]["c14_inc_generic/c14_arch.h"] = ["#define C14_GENERIC 1", "int generic_decl_a;", "int generic_decl_b;"]
+        desc["texts"]["c14_inc_other/c14_unrelated.h"] = ["int unrelated;"]
+        desc["texts"]["c14_arch_user.c"] = ["#include <c14_arch.h>", "#ifdef C14_TUNED", "int tuned_a;", "#endif", "#ifdef C14_GENERIC",
+                                            "int generic_a;", "int generic_b;", "int generic_c;", "#endif"]
+        for pname in sorted(desc["platforms"]):
+            dirs = ["c14_inc_tuned", "c14_inc_generic", "c14_inc_other"]
+            rng.shuffle(dirs)
+            inc = []
+            for dn in dirs[:rng.randint(2, 3)]:
+                inc += rng.choice([["-I", dn], ["-I" + dn], ["-isystem", dn]])
+            desc["platforms"][pname].append({"file": "c14_arch_user.c", "directory": ".",
+                                             "arguments": ["gcc"] + inc + ["-c", "c14_arch_user.c"]})
     # JSON-clean (tuples -> lists) so that a replay file reproduces it exactly
     return json.loads(json.dumps({k: desc[k] for k in ("texts", "platforms", "links")}))
 
@@ -878,6 +894,103 @@ def modes_files(mc):
     return {".cbi/config": "\n".join(cfg) + "\n"}, src
 
 
+PASSES_CFG = """
+[compiler.mycc]
+
+[[compiler.mycc.parser]]
+flags = ["-farch", "--arch"]
+action = "extend_match"
+pattern = "[a-z]+"
+format = "arch-$value"
+dest = "passes"
+default = ["arch-base"]
+
+[[compiler.mycc.parser]]
+flags = ["-ftarget"]
+action = "extend_match"
+pattern = "[a-z]+"
+format = "arch-$value"
+dest = "passes"
+default = ["arch-x"]
+override = true
+
+[[compiler.mycc.passes]]
+name = "arch-base"
+defines = ["PB=1"]
+
+[[compiler.mycc.passes]]
+name = "arch-x"
+defines = ["PX=1"]
+
+[[compiler.mycc.passes]]
+name = "arch-y"
+defines = ["PY=1"]
+
+[[compiler.mycc.passes]]
+name = "arch-z"
+defines = ["PZ=1"]
+"""
+
+
+def gen_passes_case(rng):
+    """several platforms compiling one file with a user compiler whose options select passes (list defaults, with and without
+    `override`): a platform that relies on the default passes must not see what another platform's command selected, so the
+    order of the [platform.*] tables must not matter"""
+    src = []
+    for n in ("PB", "PX", "PY", "PZ"):
+        src += [f"#ifdef {n}"] + [f"int {n.lower()}_{j};" for j in range(1 + "BXYZ".index(n[1]))] + ["#endif"]
+    src += ["int common;"]
+    plats = {}
+    for pname in rng.sample(["p0", "p1", "p2", "p3"], rng.randint(2, 4)):
+        entries = []
+        for _ in range(rng.randint(1, 2)):
+            flags = []
+            if rng.random() < 0.5:
+                flags += [rng.choice(["-farch=", "--arch="]) + rng.choice(["y", "z", "y,z", "x"])]
+            if rng.random() < 0.3:
+                flags += ["-ftarget=" + rng.choice(["y", "z", "y,z"])]
+            rng.shuffle(flags)
+            entries.append({"file": "a.c", "directory": ".", "arguments": ["mycc"] + flags + ["-c", "a.c"]})
+        plats[pname] = entries
+    return {"texts": {"a.c": src}, "links": [], "platforms": plats}
+
+
+def passes_submit(ctx, pool, scratch, shimdir):
+    jobs = []
+    nvar = 24 if ctx.thorough() else 6
+    for i in range(ctx.n(4, 12)):
+        desc = gen_passes_case(ctx.rng)
+        variants = []
+        for k in range(nvar):
+            v = make_variant(ctx.rng, desc, k)
+            v["scandir"] = None
+            variants.append(v)
+        base = scratch / f"passes{i:03d}"
+        extra = {".cbi/config": PASSES_CFG}
+        futs = [pool.submit(run_variant, base, desc, v, shimdir, extra, ["summary"]) for v in variants]
+        jobs.append((desc, extra, variants, futs))
+    return jobs
+
+
+def passes_collect(ctx, jobs):
+    for desc, extra, variants, futs in jobs:
+        results = [f.result() for f in futs]
+        secs = [sections(r["main"][1]) for r in results]
+        if any(r["main"][0] != 0 or s["summary_table"] is None for r, s in zip(results, secs)):
+            ctx.notes.append(f"passes case did not produce a summary: {results[0]['main'][2]}")
+            continue
+        used = {a.split("=")[0] for es in desc["platforms"].values() for e in es for a in e["arguments"] if a.startswith("-")}
+        if len(used) > 1:
+            ctx.nontrivial.add("passes:" + json.dumps(desc["platforms"], sort_keys=True))
+        for v, sec in zip(variants[1:], secs[1:]):
+            ctx.count(key="passes-schedule")
+            if sec["summary_table"] != secs[0]["summary_table"] or sec["metric_lines"] != secs[0]["metric_lines"]:
+                case = {"kind": "modes", "desc": desc, "extra_files": extra, "variants": [variants[0], v], "stream": "passes"}
+                ctx.violation("summary depends on the order of the [platform.*] tables / hash seed when a user compiler's options "
+                              f"select passes:\n{secs[0]['summary_table']}\n--- vs ---\n{sec['summary_table']}", case)
+                break
+
+
 def modes_submit(ctx, pool, scratch, shimdir):
     ncases = ctx.n(4, 12)
     nseeds = 24 if ctx.thorough() else 6
@@ -1029,6 +1142,7 @@ def run(ctx, drv):
             t = [time.time()]
             cli_jobs = cli_submit(ctx, pool, scratch, shimdir)
             modes_jobs = modes_submit(ctx, pool, scratch, shimdir)
+            passes_jobs = passes_submit(ctx, pool, scratch, shimdir)
             hs_job = hashseed_submit(ctx, pool, scratch)
             t.append(time.time())
             table_stream(ctx, drv)
@@ -1037,6 +1151,7 @@ def run(ctx, drv):
             t.append(time.time())
             hashseed_collect(ctx, hs_job)
             modes_collect(ctx, drv, modes_jobs)
+            passes_collect(ctx, passes_jobs)
             cli_collect(ctx, drv, cli_jobs)
             t.append(time.time())
             ctx.extra["timings_s"] = dict(zip(["submit", "table_stream", "analysis_stream", "wait_for_subprocesses"],
@@ -1066,7 +1181,7 @@ def replay(ctx, drv, case):
             if "cov" in res[0]:
                 out["implementation"]["coverage_json_equal"] = res[0]["cov"][1] == res[1]["cov"][1]
             out["spec"] = "all listed sections byte-identical for every schedule"
-            if case["kind"] == "modes" and drv is not None:
+            if case["kind"] == "modes" and drv is not None and "modes_case" in case:
                 mc = case["modes_case"]
                 out["model"] = drv.ask({"op": "order_modes", "cmdline": [], "names": ["X", "Y", "Z"],
                                         "table": [[m["name"], m["defines"]] for m in mc["modes"]],
